@@ -13,7 +13,8 @@ from netqasm.sdk.network import NetworkInfo
 from netqasm.sdk.shared_memory import SharedMemoryManager
 from simulaqron.general import SimUnsupportedError
 from simulaqron.general.host_config import (SocketsConfig,
-                                            get_node_id_from_net_config)
+                                            get_node_id_from_net_config,
+                                            get_node_name_from_net_config)
 from simulaqron.settings import SimBackend, simulaqron_settings
 
 logger = get_netqasm_logger("SimulaQronConnection")
@@ -340,10 +341,7 @@ class SimulaQronNetworkInfo(NetworkInfo):
         """Returns the node name for the node with the given ID"""
         # TODO always use network name "default"?
         _qnodeos_net = _get_qnodeos_net_config(network_name="default")
-        for node_name, host in _qnodeos_net.hostDict.items():
-            if node_id == host.ip:
-                return node_name
-        raise KeyError("Unknown node ID {node_id}")
+        return get_node_name_from_net_config(_qnodeos_net, node_id)
 
     @classmethod
     def get_node_id_for_app(cls, app_name):
